@@ -81,3 +81,8 @@ claim("C07", "metamorphic property-based testing over delivery forms and read-si
       "back-ends; oracle: every form gives the str form's item sequence incl. line/column of every mark (index up to the BOM shift) and the same final error; reader defects are reported as ReaderError "
       "with the injected character at the right character offset / an identical byte offset for every chunking, after a prefix of the longest delivery.",
       "Trusted: Hypothesis and the chunked stream classes in checks/c07.py. LibYAML forms are compared with the LibYAML str form.")
+claim("C10", "model-based testing of operation histories (Hypothesis-generated lists of registration/subclassing operations, shrunk as one value; exhaustive short histories) against an executable model of the copy-on-write registries",
+      "Generated histories over a growing class lattice rooted at all shipped loader/dumper classes (subclassing incl. diamonds, the six add_* class methods, the module-level helpers with and without "
+      "explicit Loader=/Dumper=, YAMLObject subclasses with class/list loaders); after every step every class's effective table for every registry kind must equal the model's, no two owners may share a "
+      "table object or a per-character resolver list, and every few steps the winner of probe loads / dumps / resolutions must be the one the rule predicts for every class.",
+      "Trusted: vlib/registry_model.py. Histories share one process; the shipped classes' registries are restored and fingerprint-checked after each history.")
